@@ -66,7 +66,7 @@ def build_file(F, regs, elems):
 class CHECK(Check):
     pid = "C05"
     entry = "REGFILE"
-    theorems = ["C05_roundtrip", "C05_empty_skipped", "C05_falsy_kept", "C05_dispatch_written", "C05_file_eq"]
+    theorems = ["C05_roundtrip", "C05_empty_skipped", "C05_falsy_kept", "C05_dispatch_written"]
     rule = ("register file definitions of 1-4 types (equal identifier windows, identifiers unambiguous by the decidable "
             "sufficient condition, positional layouts of 1-4 fields of mixed kinds) x sequences of 0-12 elements: typed "
             "registers with canonical fitting data (zeros, empty strings, None in non-literal positions), registers "
